@@ -20,6 +20,7 @@ RULE = ('Contractive affine BlockSpecs (q <= 0.6, 1-5 simultaneous variables, la
         'constants, aliases, leaves; with and without a user-defined t; reduction flag of the generator on/off) are written '
         'by IterativeMachineGenerator.main() into a per-case temporary directory, imported under a unique module name and '
         'run. Non-trivial: block without user-defined t, with >= 1 lag and >= 1 exogenous list. Distinct: sha1 of the spec.')
+RULE = RULE + (' Input shapes added after the seeded-change rounds (DESIGN.md section 8): ' + "constants (any literal spelling) as divisors; math expressions in initial conditions and exogenous paths; variables named like the module's locals (err, cnt); a stated tolerance of zero on recursive blocks.")
 ASSUMPTIONS = [
     'residual bound from the generated module\'s absolute stop rule (sum of |changes| <= tol): 4*tol*(1+Lambda), no magnitude factor',
     'series are compared with the in-process solver only when all shared variables agree at k=0 '
